@@ -330,6 +330,13 @@ def mon_c08(v: View) -> List[dict]:
         best = max(v.prog.cp_ref(m) for m in rdy)
         if any(v.prog.nodes[m].seq for m in rdy if v.prog.cp_ref(m) == best):
             return
+        # a ready sequential node that is going to be deactivated is still "the best ready candidate" until the
+        # scheduler has evaluated its flag (it drains the running nodes first)
+        for i, st in v.status.items():
+            if st == "deact" and v.prog.nodes[i].seq and v.prog.cp_ref(i) >= best:
+                nid = v.ids[i]
+                if not (nid in v.deact and v.deact[nid] < t) and all(v.observed_before(d, t) for d in v.prog.deps(i)):
+                    return
         out.append(V("idle_wait",
                      f"scheduler blocks at {t} ({kind} wait on {sorted(pending_now)}) with {len(inflight)}/{mc} in flight while {[v.ids[m] for m in rdy]} ready",
                      after_async_wait=after_async, partial=partial, wait_kind=kind))
